@@ -587,6 +587,33 @@ CHECKS = {
                 "a batch in which one action cancels the next).",
         "technique": "monitor contracts (rely/guarantee with a ghost runner token) and loop cuts by symbolic execution of the real class, SMT; native scenario replay",
     },
+    "C41": {
+        "text": "Function and closure contracts on the real bridges, each executed symbolically against contracts of Future and Event. "
+                "from_future_: subscribe registers exactly one done-callback and emits nothing itself; that callback emits the result "
+                "then completes, or delivers the future's exception - cancellation (CancelledError, a BaseException) included - as "
+                "on_error and nothing else; the returned disposable cancels the future. to_future_: one future from the right "
+                "constructor, the source subscribed once with the scheduler; from ANY state of the cells on_next keeps the element as the "
+                "last one (None and falsy values alike) and touches nothing else, on_completed resolves the future with the last element "
+                "iff one came and fails it with SequenceContainsNoElementsError otherwise, on_error fails it with that error, a cancelled "
+                "future is left alone, the done-callback disposes the subscription. run: subscribes once on the given or the default "
+                "scheduler; on_next keeps the last element; on_error / on_completed record the outcome, set `done`, then the latch; the "
+                "waiting loop (cut) only waits on the latch and leaves exactly when done; then it raises the recorded error - whatever "
+                "its truth value -, or SequenceContainsNoElementsError iff no element came, else returns the last element. "
+                "Observable.run = run(self, scheduler); __await__ = to_future_ on an AsyncIOScheduler of the running (else a new) loop. "
+                "to_async_: one subject per call, exactly one action scheduled (given scheduler or the TimeoutScheduler singleton), the "
+                "action calls the function once with the call's arguments and emits result + completion or the exception alone; "
+                "start_ = to_async_(f, s)(); start_async_: throw(ex) when the factory raises, else from_future(its future). "
+                "from_callback_: subscribe calls func(*arguments, handler) once; the handler, for 0..3 callback arguments with and without "
+                "a mapper, emits exactly one value (the argument, the list of several, None for none, or the mapper's result) then "
+                "completes, a raising mapper gives on_error alone, and no exception escapes into the caller of the callback.",
+        "note": "Assumed contracts of dependencies: Future (result() gives the value or raises what it was completed with; CancelledError "
+                "is not an Exception; add_done_callback runs the callback once when done), threading.Event (level-triggered), the "
+                "AsyncSubject used by to_async (C23). 'Last element' is by frame induction over the handlers: each handler is run from an "
+                "arbitrary state of the closure cells. concurrent.futures.Future.result() itself tests `if self._exception:` - an error "
+                "with a False truth value is returned as None by CPython, outside RxPY. Two defects found by failing obligations and "
+                "repaired (46299f8, 85e38cb). Thorough: 6 must-fail mutants, bridgerun.py (363 native cases).",
+        "technique": "function / closure contracts with frame induction over handler cells, by symbolic execution of the real bridges against contracts of Future and Event, SMT; native replay",
+    },
     "C33": {
         "text": "Function and closure contracts on the real AsyncIOScheduler and AsyncIOThreadSafeScheduler against the contract of an "
                 "asyncio loop (call_soon / call_soon_threadsafe / call_later hand back a handle; the loop's thread runs callbacks one at "
